@@ -209,6 +209,39 @@ def freePhBinds : Binds → List String
   | (_, t) :: bs => freePh t ++ freePhBinds bs
 end
 
+/-! ## sharing: sub-terms of the current frame and DAG size
+
+A term denotes a DAG after maximal sharing (what `deduplicate`, the last step of
+`inline_calls`, produces): its nodes are its DISTINCT sub-terms.  "`t` fits into
+`n` nodes" is stated without deciding equality of terms: some list of at most
+`n` terms contains every sub-term. -/
+
+mutual
+/-- the sub-terms of the current frame (function bodies are other frames) -/
+def frameSub : Term → List Term
+  | .placeholder n => [.placeholder n]
+  | .error => [.error]
+  | .op f args => .op f args :: frameSubList args
+  | .result k tg ps rets bs => .result k tg ps rets bs :: frameSubBinds bs
+def frameSubList : List Term → List Term
+  | [] => []
+  | t :: ts => frameSub t ++ frameSubList ts
+def frameSubBinds : Binds → List Term
+  | [] => []
+  | (_, t) :: bs => frameSub t ++ frameSubBinds bs
+end
+
+/-- every sub-term of the terms `ts` occurs in `l` -/
+def CoversList (l : List Term) (ts : List Term) : Prop := ∀ s ∈ frameSubList ts, s ∈ l
+def CoversBinds (l : List Term) (bs : Binds) : Prop := ∀ s ∈ frameSubBinds bs, s ∈ l
+/-- the terms `ts` TOGETHER (shared sub-terms counted once) fit into `n` DAG nodes -/
+def DagSizeLe (ts : List Term) (n : Nat) : Prop := ∃ l : List Term, l.length ≤ n ∧ CoversList l ts
+def DagSizeLeBinds (bs : Binds) (n : Nat) : Prop := ∃ l : List Term, l.length ≤ n ∧ CoversBinds l bs
+
+/-- all results of a call, in the order of `returns` -/
+def allResults (tg : Bool) (ps : List String) (rets bs : Binds) : List Term :=
+  rets.map fun kv => .result kv.1 tg ps rets bs
+
 /-! ## return conventions (`trace_call`, `FunctionDefinition.__call__`) -/
 
 def tupleName (i : Nat) : String := "_" ++ toString i
